@@ -1,9 +1,10 @@
 """C01 — AOEF save/load round trip is lossless for every collection type."""
 import copy
 import random
+import time
 
 from ..core import Op
-from .. import aoef, aoefgen, aoef_impl
+from .. import aoef, aoefgen, aoef_impl, c01_cases, c01_impl
 
 PROPERTY = "C01"
 LEAN_MODULE = "Proofs.C01"
@@ -59,28 +60,35 @@ RENAME = {"Tag": {"term": "key"}, "Feature": {"term": "key"}}
 
 # ------------------------------------------------------------------ operations
 def _impl_roundtrip(inp):
-    return aoef_impl.roundtrip(inp["collection"], inp.get("save_dir"), inp.get("load_dir"), inp.get("n", 1),
-                               inp.get("dir_as", "str"), inp.get("fresh", False))
+    return c01_impl.roundtrip(inp)
+
+
+def _model_roundtrip(inp):
+    return {"collection": inp["collection"], "save_dir": inp.get("save_dir"), "load_dir": inp.get("load_dir"),
+            "n": inp.get("n", 1)}
 
 
 def _holds_roundtrip(ctx, inp, out):
-    """the property itself on the real I/O: same type, equal in every declared field, for n cycles"""
+    """the property itself on the real I/O: same type, equal in every declared field, after every one of n cycles
+    (judged inside `c01_impl.roundtrip` against the object that was built and saved)"""
     if "unbuildable" in out:
+        ctx.tally("generator:unbuildable")
         return None
-    if inp.get("save_dir") != inp.get("load_dir"):
+    if not c01_impl.same_dir(inp.get("save_dir"), inp.get("load_dir")):
         return None          # relocation is C18's statement
+    if "built_differs" in out:
+        ctx.tally("constructors normalised the input")
+    if "property" in out:
+        return out["property"]
     if "raise" in out:
         return f"save/load raised {out['raise']} on a collection inside the quantifier"
-    d = aoef.diff(out["val"], inp["collection"])
-    if d:
-        return f"after {inp.get('n', 1)} save/load cycle(s) the loaded object differs from the original at {d}"
     return None
 
 
 def _cmp_roundtrip(inp, io, mo):
-    if "unbuildable" in io:
-        return None
-    a = {k: v for k, v in io.items() if k != "trace"}
+    if "unbuildable" in io or "built_differs" in io:
+        return None          # the model was given something else than what was saved
+    a = {k: v for k, v in io.items() if k in ("val", "raise")}
     if a == mo:
         return None
     if "val" in a and "val" in mo:
@@ -161,6 +169,10 @@ def _impl_history(inp):
     return [_impl_roundtrip(st) for st in inp["steps"]]
 
 
+def _model_history(inp):
+    return {"steps": [_model_roundtrip(st) for st in inp["steps"]]}
+
+
 def _holds_history(ctx, inp, out):
     for i, (st, o) in enumerate(zip(inp["steps"], out)):
         msg = _holds_roundtrip(ctx, st, o)
@@ -178,11 +190,11 @@ def _cmp_history(inp, io, mo):
 
 
 OPS = {
-    "history": Op("history", _impl_history, holds=_holds_history, compare=_cmp_history,
+    "history": Op("history", _impl_history, holds=_holds_history, compare=_cmp_history, to_model=_model_history,
                   nontrivial=lambda i, o: all("val" in x for x in o)),
     "load_gate": Op("load_gate", _impl_load_gate, nontrivial=lambda i, o: True),
     "roundtrip": Op("roundtrip", _impl_roundtrip, holds=_holds_roundtrip, compare=_cmp_roundtrip,
-                    nontrivial=lambda i, o: "val" in o),
+                    to_model=_model_roundtrip, nontrivial=lambda i, o: "val" in o),
     "save_doc": Op("save_doc", _impl_save_doc, compare=_cmp_save_doc, determined=False, model_op="save",
                    nontrivial=lambda i, o: "val" in o),
     "load_doc": Op("load_doc", _impl_load_doc, determined=False, model_op="load_checked",
@@ -273,6 +285,18 @@ def _wf_filter(ctx, cases):
     return out
 
 
+def _buildable(ctx, cases):
+    """drop inputs the data classes refuse to construct (a variant that violates a schema validator)"""
+    out = []
+    for c in cases:
+        try:
+            aoef.build(c["collection"])
+            out.append(c)
+        except Exception:  # noqa: BLE001
+            ctx.tally("generator:unbuildable variant")
+    return out
+
+
 def _gen_cases(ctx, rng, n_per_type, rich=False, size=1.0):
     cases = []
     for ty in aoefgen.TYPES:
@@ -324,40 +348,157 @@ def _load_cases(ctx, rng, cases, n_mut):
     return res
 
 
-def _correspondence(ctx):
-    ctx.run_corpus(OPS)
-    # deterministic all-fields corpus (every optional field present, every list non-empty), one per type, first
+def _tally_cases(ctx, cases, prefix):
+    for c in cases:
+        ctx.tally("type:" + c["collection"]["type"])
+        t = c.pop("_tally", None)
+        d = c.get("save_dir")
+        ctx.tally(prefix + ":" + (t or ("audio_dir given" if d is not None else "no audio_dir")))
+    return cases
+
+
+def _rich_cases(ctx):
+    """deterministic all-fields corpus: every optional field present, every list with at least two elements, one per
+    type; plus the same graphs with every list reversed (one of the two orders is unsorted under any key)"""
     crng = random.Random("C01-all-fields")
     rich = _gen_cases(ctx, crng, 1, rich=True)
+    for ty in aoefgen.TYPES:
+        for base, d in (("/data/audio", "/data/audio"), ("audio/site a", "./audio/"), (None, None)):
+            cj = c01_cases.RichGen(crng, base=base).collection(ty)
+            rich.append({"collection": cj, "save_dir": d, "load_dir": d, "n": 3, "dir_as": "str", "fresh": False})
+    rich += [dict(c, collection=c01_cases.reverse_lists(c["collection"])) for c in rich[len(aoefgen.TYPES):]]
     for c in rich:
         c["n"] = 3
+    return _wf_filter(ctx, rich)
+
+
+def _stage_rich(ctx, st):
+    rich = st["rich"] = _rich_cases(ctx)
+    ctx.tally("all-fields collections (incl. list-reversed)", len(rich))
     ctx.run_cases(OPS["roundtrip"], rich)
     ctx.run_cases(OPS["save_doc"], _doc_cases(rich))
+    # declared fields the harness does not know (none on the pinned tree) get a non-default value before saving
+    ctx.run_cases(OPS["roundtrip"], [dict(c, fill_unknown=True, n=1, fresh=bool(i % 2)) for i, c in enumerate(rich[8:16])])
+
+
+def _stage_slots(ctx, st):
+    """one optional field at a time absent / empty / falsy, for every (class, field) of the declared fields"""
+    rich_by_type = {}
+    for c in st.get("rich", [])[8:]:
+        rich_by_type.setdefault(c["collection"]["type"], c["collection"])
+    per = None if ctx.thorough() else 1
+    vs = c01_cases.slot_variants(rich_by_type, types_per_slot=per, rng=ctx.rng)
+    cases = []
+    for label, c in vs:
+        cases.append(dict(c, save_dir=None, load_dir=None, n=1, dir_as="str", fresh=False))
+    cases = _buildable(ctx, _wf_filter(ctx, cases))
+    ctx.tally("slot variants (class.field absent/empty/falsy)", len(cases))
+    ctx.exhaustive["optional_slots"] = ("every declared field of every data class that is Optional / a list / str / float / int / "
+                                        f"bool (from model_fields, {len(c01_cases.slot_table())} fields), one at a time absent / empty / "
+                                        "falsy in an all-fields collection" + ("" if per is None else " (one host type per slot)"))
+    ctx.run_cases(OPS["roundtrip"], cases)
+    ctx.run_cases(OPS["roundtrip"], [dict(c, fresh=True) for c in cases[::5]])
+    ctx.run_cases(OPS["save_doc"], _doc_cases(cases[::3]))
+
+
+def _stage_random(ctx, st):
     n = ctx.budget(40, 1500)
-    cases = _gen_cases(ctx, ctx.rng, n)
+    cases = st["cases"] = _gen_cases(ctx, ctx.rng, n)
     ctx.run_cases(OPS["roundtrip"], cases)
     ctx.run_cases(OPS["save_doc"], _doc_cases(cases))
     # fresh loader process (nothing can be recovered from memory)
-    fresh = [dict(c, fresh=True, n=1) for c in cases[::3]] + [dict(c, fresh=True, n=2) for c in rich]
+    fresh = [dict(c, fresh=True, n=1) for c in cases[::3]] + [dict(c, fresh=True, n=2) for c in st.get("rich", [])]
     ctx.run_cases(OPS["roundtrip"], fresh)
     ctx.tally("fresh-process loads", len(fresh))
+
+
+def _stage_dirs(ctx, st):
+    """relative recording paths under relative audio directories (and absolute ones), the directory spelled as a
+    caller may write it, str and Path, n cycles, in-process and fresh"""
+    n = ctx.budget(6, 150)
+    cases = _wf_filter(ctx, c01_cases.dir_cases(ctx.rng, n))
+    cases += _wf_filter(ctx, c01_cases.recording_is_directory_cases())
+    st["dirs"] = _tally_cases(ctx, cases, "dir-spelling")
+    ctx.run_cases(OPS["roundtrip"], cases)
+    ctx.run_cases(OPS["roundtrip"], [dict(c, fresh=True) for c in cases[::2]])
+    ctx.run_cases(OPS["save_doc"], _doc_cases(cases[::2]))
+
+
+def _stage_wide(ctx, st):
+    """atoms at the edge of their types; distinct objects with equal content; ints where floats are declared"""
+    n = ctx.budget(5, 120)
+    wide, twin = [], []
+    for ty in aoefgen.TYPES:
+        for i in range(n):
+            base = ctx.rng.choice(["/data/audio", "audio", None])
+            d = base if (base is not None and ctx.rng.random() < 0.5) else None
+            mk = lambda cj: {"collection": cj, "save_dir": d, "load_dir": d, "n": ctx.rng.choice([1, 2, 3]),
+                             "dir_as": ctx.rng.choice(["str", "path"]), "fresh": False}
+            wide.append(mk(c01_cases.WideGen(ctx.rng, rich=i == 0, base=base, size=0.8).collection(ty)))
+            twin.append(mk(c01_cases.TwinGen(ctx.rng, rich=i == 0, base=base, size=0.8).collection(ty)))
+    wide = st["wide"] = _tally_cases(ctx, _wf_filter(ctx, wide), "wide-atoms")
+    twin = st["twin"] = _tally_cases(ctx, _wf_filter(ctx, twin), "twins")
+    for cases in (wide, twin):
+        ctx.run_cases(OPS["roundtrip"], cases)
+        ctx.run_cases(OPS["roundtrip"], [dict(c, fresh=True) for c in cases[::2]])
+        ctx.run_cases(OPS["save_doc"], _doc_cases(cases))
+    ints = [dict(c, ints=True, n=1) for c in (st.get("cases", [])[::8] + wide[::4] + st.get("rich", [])[::3])]
+    ctx.tally("integral numbers passed as int", len(ints))
+    ctx.run_cases(OPS["roundtrip"], ints)
+
+
+def _stage_load(ctx, st):
     # the loader on documents, pristine and mutated
-    ctx.run_cases(OPS["load_doc"], _load_cases(ctx, ctx.rng, cases[::2], 2))
+    src = st.get("cases", [])[::2] + st.get("dirs", [])[::3] + st.get("wide", [])[::3] + st.get("twin", [])[::3]
+    ctx.run_cases(OPS["load_doc"], _load_cases(ctx, ctx.rng, src, 2))
+
+
+def _stage_history(ctx, st):
     # histories: the same objects (same uuids) with revised content, and other collection types over the same
     # objects, saved / loaded later in the same process - nothing may be remembered from earlier calls
     hist = []
-    for c in cases[::4] + rich:
+    for c in st.get("cases", [])[::4] + st.get("rich", [])[:8] + st.get("dirs", [])[::6]:
         rev = dict(c, collection=aoefgen.revise(c["collection"]), n=1)
         hist.append({"steps": [dict(c, n=1), rev, dict(rev, fresh=True), dict(c, n=1, fresh=True)]})
     ctx.run_cases(OPS["history"], hist)
     ctx.tally("history cases (4 steps each)", len(hist))
+    multi = []
+    for i in range(ctx.budget(10, 150)):
+        h = c01_cases.multi_history(ctx.rng, gen_cls=[aoefgen.Gen, c01_cases.TwinGen][i % 2],
+                                    base=ctx.rng.choice(["/data/audio", "audio", None]))
+        oks = ctx.model_many("wf", [{"collection": s["collection"]} for s in h["steps"]])
+        if all(oks):
+            multi.append(h)
+    ctx.run_cases(OPS["history"], multi)
+    ctx.tally("multi-collection histories (12 steps each)", len(multi))
+
+
+def _stage_gate(ctx, st):
     # the file-level gate of io.load: every combination of existence / suffix / format / version / type
     ctx.run_cases(OPS["load_gate"], _gate_cases())
     ctx.exhaustive["load_gate"] = "exists x suffix x format{None,aoef,other} x version{3} x doc type{3} x requested type{4}"
-    # larger graphs
+
+
+def _stage_big(ctx, st):
     big = _gen_cases(ctx, ctx.rng, ctx.budget(1, 8), size=2.5)
     ctx.run_cases(OPS["roundtrip"], big)
     ctx.run_cases(OPS["save_doc"], _doc_cases(big))
+
+
+def _correspondence(ctx):
+    ctx.run_corpus(OPS)
+    st = {}
+    for name, fn in (("all-fields", _stage_rich), ("optional-slots", _stage_slots), ("random", _stage_random),
+                     ("directories", _stage_dirs), ("wide-atoms-twins", _stage_wide), ("loader", _stage_load),
+                     ("histories", _stage_history), ("load-gate", _stage_gate), ("large", _stage_big)):
+        t0 = time.time()
+        ctx.stage("correspondence:" + name, fn, ctx, st)
+        ctx.tally("seconds in stage " + name, round(time.time() - t0, 1))
+
+
+def _close():
+    aoef_impl.FRESH.close()
+    c01_impl.FRESH.close()
 
 
 def run(ctx):
@@ -366,13 +507,17 @@ def run(ctx):
         ctx.stage("discharge", ctx.discharge, ["SoundeventModel.Aoef.Fields", "Proofs.C01"])
         ctx.stage("correspondence", _correspondence, ctx)
     finally:
-        aoef_impl.FRESH.close()
+        _close()
 
 
 def search(ctx, failures):
     """a table obligation or the document correspondence broke: look for a collection on which the round trip
-    itself fails (all-fields objects first: an omitted field or list shows there)"""
+    itself fails (all-fields objects first, with every declared field the harness does not know set to a
+    non-default value: an omitted field or list shows there)"""
     try:
+        rich = _rich_cases(ctx)
+        ctx.run_cases(OPS["roundtrip"], [dict(c, fill_unknown=True, n=1) for c in rich])
+        ctx.run_cases(OPS["roundtrip"], [dict(c, fill_unknown=True, n=1, fresh=True) for c in rich[::2]])
         crng = random.Random("C01-search")
         for rich in (True, False):
             cases = _gen_cases(ctx, crng, 6 if rich else 30, rich=rich)
@@ -381,4 +526,4 @@ def search(ctx, failures):
             ctx.run_cases(OPS["roundtrip"], cases)
             ctx.run_cases(OPS["roundtrip"], [dict(c, fresh=True) for c in cases[::2]])
     finally:
-        aoef_impl.FRESH.close()
+        _close()
